@@ -1,5 +1,5 @@
 CONSTANTS
-  LEN = 1
+  LEN = 3
   DEVS = {"unknown_flag_rejected"}
 INIT MCInit
 NEXT MCNext
